@@ -94,7 +94,20 @@ func childMain(args []string) {
 	}
 	debug.SetTraceback("all")
 	r := ev.NewResult()
+	// partial results survive a child that ends in the outer watchdog
+	stopSnap := make(chan struct{})
+	go func() {
+		for {
+			select {
+			case <-stopSnap:
+				return
+			case <-time.After(15 * time.Second):
+				c.WriteResult(r)
+			}
+		}
+	}()
 	ck.Run(c, r)
+	close(stopSnap)
 	if err := c.WriteResult(r); err != nil {
 		fmt.Fprintln(os.Stderr, "cannot write result:", err)
 		os.Exit(4)
